@@ -162,7 +162,7 @@ def check_shape(t, shape, style_names=None, iter_names=None, text=True):
         if not text:
             continue
         # text layout: str() and by_attr()
-        vals = ["x", "", "x\ny", "\n", "a\n\nb", ["l1", "l2"], [], ("t",), 7, "<missing>"]
+        vals = ["x", "", "x\ny", "\n", "a\n\nb", ["l1", "l2"], [], ("t",), 7, "<missing>", 0, 0.0, False, None, {}, ()]
         for rot in range(3):
             nodes = tree.build(m, tree.default_factory("user"), "topdown")
             idm = tree.IdMap(nodes)
